@@ -28,6 +28,7 @@ TokText(id) == CASE id = "s.pn" -> "ex:a"           [] id = "s.abs" -> "<http://
                  [] id = "o.bn" -> "_:b2"           [] id = "o.int" -> "57"
                  [] id = "o.str" -> "\"x y\""       [] id = "o.xsd" -> "\"5\"^^xsd:int"
                  [] id = "o.dti" -> "\"v\"^^<http://x.org/dt>"  [] id = "o.dtp" -> "\"v\"^^ex:dt"
+                 [] id = "o.dtg" -> "\"4\"^^geo:deg"      \* a label sheXer has a built-in namespace for, bound to another one by the document
                  [] id = "o.lang" -> "\"hola\"@es"
                  [] id = "o.spec" -> "\"a # b ; c , d . e\""    [] id = "o.esc" -> "\"q\\\"u\\\\\""
                  [] id = "o.cls" -> "ex:C"
@@ -43,6 +44,7 @@ TokTerm(id) == CASE id = "s.pn" -> <<"IRI", EXNS \o "a">>   [] id = "s.abs" -> <
                  [] id = "o.int" -> <<XSDNS \o "integer", "">>
                  [] id = "o.str" -> <<XSD_STRING, "">>       [] id = "o.xsd" -> <<XSDNS \o "int", "">>
                  [] id = "o.dti" -> <<"http://x.org/dt", "">> [] id = "o.dtp" -> <<EXNS \o "dt", "">>
+                 [] id = "o.dtg" -> <<"http://www.w3.org/2003/01/geo/wgs84_pos#deg", "">>
                  [] id = "o.lang" -> <<LANG_STRING, "">>
                  [] id = "o.spec" -> <<XSD_STRING, "">>      [] id = "o.esc" -> <<XSD_STRING, "">>
                  [] id = "o.cls" -> <<"IRI", EXNS \o "C">>
@@ -50,7 +52,7 @@ TokTerm(id) == CASE id = "s.pn" -> <<"IRI", EXNS \o "a">>   [] id = "s.abs" -> <
                  [] id = "o.urn" -> <<"IRI", BASE \o "urn:x:1">>      \* documented divergence: only http(s) IRIs count as absolute
 SubjToks == {"s.pn", "s.abs", "s.rel", "s.bn", "s.https"}
 PredToks == {"p.pn", "p.a", "p.abs", "p.type"}
-ObjToks == {"o.pn", "o.abs", "o.rel", "o.bn", "o.int", "o.str", "o.xsd", "o.dti", "o.dtp", "o.lang", "o.spec", "o.esc", "o.cls", "o.https"}
+ObjToks == {"o.pn", "o.abs", "o.rel", "o.bn", "o.int", "o.str", "o.xsd", "o.dti", "o.dtp", "o.dtg", "o.lang", "o.spec", "o.esc", "o.cls", "o.https"}
 Punct == {";", ",", "."}
 
 \* abstract triples of a token sequence S P O (, O)* (; P O (, O)*)* . ...   (what a standard parser yields)
@@ -78,7 +80,8 @@ WellFormed(toks, i, st) ==      \* st: what is expected next: "S", "P", "O", "X"
 \* layout: gap[i] stands between token i and token i+1 (gap[Len] after the last token)
 Gaps == {"sp", "sp2", "tab", "nl", "nlsp", "cmt", "cline"}
 HeaderLines == << Chars("@prefix ex: <http://ex.org/> ."), Chars("@prefix xsd: <http://www.w3.org/2001/XMLSchema#> ."),
-                  Chars("@prefix rdf: <http://www.w3.org/1999/02/22-rdf-syntax-ns#> ."), Chars("@base <http://b.org/d/> .") >>
+                  Chars("@prefix rdf: <http://www.w3.org/1999/02/22-rdf-syntax-ns#> ."),
+                  Chars("@prefix geo: <http://www.w3.org/2003/01/geo/wgs84_pos#> ."), Chars("@base <http://b.org/d/> .") >>
 CommentTail == <<" ", "#", " ", "c", " ", "\"", " ", ".">>          \* trailing comment (with a quote and a dot inside)
 CommentLine == <<"#", " ", "l", "i", "n", "e", " ", ";">>           \* a whole comment line
 \* the document as the sequence of its lines (the line reader splits on line breaks and skips blank lines)
